@@ -20,6 +20,7 @@ const (
 	FMutated             // byte-level mutation drawn from VERIF_SEED
 	FLong                // 10-100 kB
 	FRep                 // residue representative used by the systematic history sweep
+	FGrown               // found by coverage-guided growth on the current tree
 )
 
 type Corpus struct {
